@@ -202,7 +202,7 @@ def showPrim (b : BoundPrim Int) : String :=
   "{mat=" ++ mat ++ " v=" ++ showVecs b.vertex ++ " n=" ++ showVecs b.normal ++ " i=" ++ showInts b.index ++ "}"
 
 def showPose (p : Pose Int) : String :=
-  "pos=" ++ showV3 p.position ++ " dir=" ++ showV3 p.direction ++ " up=" ++ showV3 p.up
+  "pos=" ++ showV3 p.position ++ " dir=" ++ showV3 p.direction
 
 def showEntry (c : Case) : Mx × Payload → Option String
   | (m, .geom g binds) => do
